@@ -40,6 +40,9 @@ func init() {
 	gen.RegisterOp("c02", "e2e-f07", func(c *gen.Ctx, raw json.RawMessage) any {
 		return c02E2E(c, gen.Into[c02E2EIn](raw))
 	})
+	gen.RegisterOp("c02", "e2e-f27", func(c *gen.Ctx, raw json.RawMessage) any {
+		return c02E2E(c, gen.Into[c02E2EIn](raw))
+	})
 }
 
 // ---- abstract descriptions (mirrored by lean/ConfModel/Model/Echo.lean) ----
@@ -370,6 +373,7 @@ type c02E2EIn struct {
 	Codecs   []int   `json:"codecs"`
 	Comps    []int   `json:"compressions"`
 	Cases    []c02TC `json:"cases"`
+	NoRerun  bool    `json:"noRerun,omitempty"` // failing permutations are not re-run alone (ops whose failures are 20 s time-outs)
 }
 type c02PermOut struct {
 	Name    string     `json:"name"`
@@ -449,6 +453,12 @@ func c02E2E(c *gen.Ctx, in c02E2EIn) c02E2EOut {
 		mode = conformancev1.TestSuite_TEST_MODE_SERVER
 		clientGRPC, serverGRPC = true, false
 		flags.ServerCommand = []string{filepath.Join(c.BinDir, "referenceserver")}
+	} else if in.Mode == "both" {
+		// neither command: the in-process reference client against the in-process reference server,
+		// both in reference mode (every deviation either peer notices on the wire is a failure of
+		// the permutation), plus the grpc-go client and server
+		mode = conformancev1.TestSuite_TEST_MODE_UNSPECIFIED
+		clientGRPC, serverGRPC = true, true
 	} else {
 		flags.ClientCommand = []string{self, "c02peer", "refclient", capPath}
 	}
@@ -514,7 +524,7 @@ func c02E2E(c *gen.Ctx, in c02E2EIn) c02E2EOut {
 	// grpc-web wrapper: "http: invalid Read on closed Body") are not failures of the property, which
 	// quantifies over inputs: re-run the failing permutations alone, twice; a permutation that
 	// passes in a re-run counts as passing (and is counted as transient).
-	for attempt := 0; attempt < 3 && len(failed) > 0 && len(failed) <= 12 && strings.Contains(log, "Total cases:"); attempt++ {
+	for attempt := 0; attempt < 3 && !in.NoRerun && len(failed) > 0 && len(failed) <= 12 && strings.Contains(log, "Total cases:"); attempt++ {
 		f2 := *flags
 		f2.Parallelism, f2.MaxServers = 1, 1
 		if len(f2.ClientCommand) > 0 {
@@ -723,14 +733,14 @@ func c02GenTC(r *gen.Rand, st string, nReq, nResp int, withErr bool, bin bool) c
 
 var c02Sts = []string{"unary", "clientStream", "serverStream", "halfDuplex", "fullDuplex"}
 
-func c02RandomTC(r *gen.Rand, bin bool) c02TC {
+func c02RandomTC(r *gen.Rand, bin bool, minReq int) c02TC {
 	st := gen.Pick(r, c02Sts)
 	nReq := 1
 	switch st {
-	case "clientStream":
-		nReq = r.Range(1, 4) // zero requests: grpc-go server hangs (documented in basic.yaml), kept out of e2e
-	case "halfDuplex", "fullDuplex":
-		nReq = r.Range(1, 4)
+	case "clientStream", "halfDuplex", "fullDuplex":
+		// an empty request stream is a request stream (minReq = 0); in mode client it is the shape
+		// of known finding F27 and has its own op (e2e-f27)
+		nReq = r.Range(minReq, 4)
 	}
 	nResp, withErr := r.Intn(5), r.Chance(2, 5)
 	if st == "fullDuplex" && nReq >= 2 && nResp == 0 && withErr {
@@ -772,16 +782,19 @@ func runC02(c *gen.Ctx) error {
 		c.Do("load", in)
 	}
 	// (3) end to end through the real Run
-	nRuns, perRun := 9, 12
+	nRuns, perRun := 12, 12
 	if c.Thorough() {
-		nRuns, perRun = 60, 14
+		nRuns, perRun = 80, 14
 	}
 	allComps := []int{1, 2, 3, 4, 5, 6}
 	var ins []any
 	for k := 0; k < nRuns; k++ {
 		in := c02E2EIn{Mode: "client", Versions: []int{1, 2}, Protos: []int{1, 2, 3}, Codecs: []int{1, 2}, Comps: []int{1, allComps[1+r.Intn(5)]}}
-		if k%3 == 2 {
+		switch k % 4 {
+		case 2:
 			in.Mode = "server"
+		case 3:
+			in.Mode = "both"
 		}
 		if c.Thorough() && k%5 == 4 {
 			in.Comps = allComps
@@ -793,13 +806,24 @@ func runC02(c *gen.Ctx) error {
 			}
 			in.Cases = append(in.Cases, c02GenTC(r, "halfDuplex", 3, 0, true, false), c02GenTC(r, "clientStream", 3, 0, true, false), c02GenTC(r, "unary", 1, 1, false, false))
 		} else {
+			minReq := 0
+			if in.Mode == "client" {
+				minReq = 1
+			}
 			for i := 0; i < perRun; i++ {
-				in.Cases = append(in.Cases, c02RandomTC(r, true))
+				in.Cases = append(in.Cases, c02RandomTC(r, true, minReq))
+			}
+			if in.Mode != "client" && k < 8 {
+				// the empty request stream of every stream type, always
+				in.Cases = append(in.Cases, c02GenTC(r, "clientStream", 0, 0, false, false), c02GenTC(r, "halfDuplex", 0, 0, false, false), c02GenTC(r, "fullDuplex", 0, 0, false, false))
 			}
 		}
 		ins = append(ins, in)
 	}
-	c.DoParallel("e2e", ins, 3)
+	opsOf := make([]string, len(ins))
+	for i := range opsOf {
+		opsOf[i] = "e2e"
+	}
 	// known finding F07, kept separate so that its symptom cannot hide anything else
 	f07 := c02E2EIn{Mode: "client", Versions: []int{1, 2}, Protos: []int{1, 2, 3}, Codecs: []int{1}, Comps: []int{1}}
 	for n := 2; n <= 3; n++ {
@@ -807,7 +831,16 @@ func runC02(c *gen.Ctx) error {
 		tc.HasDef = true
 		f07.Cases = append(f07.Cases, tc)
 	}
-	c.Do("e2e-f07", f07)
+	// known finding F27: empty request streams in mode client (a client that is not the tracing
+	// reference-mode client sends END_STREAM on the HEADERS frame; grpc-go 1.70's own HTTP/2 server
+	// never delivers the end of the request stream to the handler): only that symptom may appear
+	f27 := c02E2EIn{Mode: "client", Versions: []int{1, 2}, Protos: []int{1, 2, 3}, Codecs: []int{1}, Comps: []int{1}, NoRerun: true}
+	for _, st := range []string{"clientStream", "halfDuplex", "fullDuplex"} {
+		f27.Cases = append(f27.Cases, c02GenTC(r, st, 0, 0, false, false))
+	}
+	ins = append(ins, f07, f27)
+	opsOf = append(opsOf, "e2e-f07", "e2e-f27")
+	c.DoParallelOps(opsOf, ins, 4)
 	return nil
 }
 
